@@ -9,6 +9,11 @@ CLAIMED = {
    note="Trusted: TLC, the CondLang semantics (lexer: whole words; not>and>or; selectors; underscore rule), the driver's dump of the condition tree. Selectors matching nothing and non-sentences are Unspecified (not judged).",
    technique="TLA+ reference parser (state machine) model-checked with TLC; TLC-generated cases replayed into the code; TLC judges the recorded results",
    ref="6/C02"),
+ "C05": dict(level=MC,
+   text="TLC model-checks spec/SigmaStr.tla (source parser as a per-character state machine over every text <=4/5: a faithful plain form exists, every escaping configuration of the family is decodable by the target's own decoder). TLC-enumerated source strings and field names are then replayed into SigmaString / TextQueryBackend and TLC decodes each recorded rendering (parts, plain form re-parsed, convert(), convert_value_str(), regex form via the set of subjects Python's re matches, slices, quoted field names) and compares with the parts denoted by the source.",
+   note="Trusted: TLC, SigmaStr semantics (backslash escapes only * ? and backslash), the configuration family in StrConfigs.tla (all well-formed: escape char is itself escaped), Python's re.fullmatch as definition of regex matching. One recorded deviation (Dev_PlainBackslashBeforeSpecial).",
+   technique="TLA+ string/escaping model checked with TLC; exhaustive TLC-generated strings replayed into the code; TLC decodes and judges recorded renderings",
+   ref="6/C05"),
 }
 REASON_NOT_BUILT = "check not built yet in this round (see DESIGN.md section 6 for the planned TLA+ model); not claimed until its judge is sound"
 ALL = [f"C{i:02d}" for i in range(1, 21)]
